@@ -35,8 +35,11 @@ BODIES = {
     12: "n: [1, 2]\na: 1\n",
     13: "n: [10]\na: 2\n",
     14: "n: [5, 5]\nb: 2\n",
+    15: "s: hello\np: \"^h\"\nk: s\nl: [a, b, c]\nn: 1\n",
+    16: "s: hello\np: z$\nk: q\nl: [x, y, z]\nn: 2\n",
+    17: "a: x\ns: double\ne: .b style |= \"single\"\nb: y\nt: single\ng: \"!!str\"\n",
 }
-FIRST_OK = [1, 1, 2, 2, 3, 3, 5, 5, 8, 8, 10, 11, 4, 6, 7, 12, 12, 13, 13, 14]
+FIRST_OK = [1, 1, 2, 2, 3, 3, 5, 5, 8, 8, 10, 11, 4, 6, 7, 12, 12, 13, 13, 14, 15, 15, 16, 16, 17, 17]
 BAD_TAIL = "{ bad\n"
 
 # leading content: S = document start marker line, other strings = comment / blank lines
@@ -64,6 +67,26 @@ SEL = {
     "with(.k; . = (3 | . -= 1))": (1, 1, "b"),
     ".k = (.a as $v | (100 | . -= $v))": (1, 1, "b"),
 }
+# operator arguments that depend on the document (pattern, key, separator, bound taken from a field): whatever an
+# operator caches in the shared parsed tree must not survive into the next document
+DATADEP = {
+    ".p as $p | .s | test($p)": (1, 0, "b"), ".p as $p | .s | sub($p; \"X\")": (1, 0, "b"), ".p as $p | .s | match($p)": (1, 0, "b"),
+    ".p as $p | .s | capture($p)": (1, 0, "b"), ".s | test(parent.p)": (1, 0, "b"),
+    ".k as $k | has($k)": (0, 0, "b"), ".k as $k | pick([$k])": (0, 1, "b"), ".k as $k | omit([$k])": (0, 1, "b"),
+    ".k as $x | .l | join($x)": (1, 0, "b"), ".k as $x | .s | split($x)": (1, 0, "b"), ".n as $n | .l | .[$n:]": (1, 0, "b"),
+    ".n as $n | [[1, [2, [3]]]] | flatten($n)": (0, 0, "b"),
+}
+# expressions that parse another expression while they are evaluated (eval, string interpolation) and assign
+# operators whose `=` / `|=` variants come from the same lexer rule
+RUNTIME_PARSE = {
+    ".a style = .s | eval(.e)": (1, 1, "b"),
+    ".a style = .s | .c = \"\\(.b style |= parent.t | .b)\"": (1, 1, "b"),
+    ".a tag |= \"!!\" + . | .c = \"\\(.b tag = .g | .b)\"": (1, 1, "b"),
+    ".a style = .s": (1, 1, "b"), ".b style |= \"single\"": (1, 1, "b"),
+    ".a line_comment = .s | .c = \"\\(.b line_comment |= \"z\" | .b)\"": (1, 1, "b"),
+}
+SEL.update(DATADEP)
+SEL.update(RUNTIME_PARSE)
 INPLACE = [".sum = (.n[] as $i ireduce (0; . += $i))", ".n[] as $i ireduce (0; . += $i)", ".a as $v | (0 | . += $v)",
            ".k = (1 | . *= 2)", "with(.k; . = (3 | . -= 1))", ".k = (.a as $v | (100 | . -= $v))"]
 # unions: selectors are measured one by one, so a union must not contain a selector that creates a key
@@ -74,8 +97,8 @@ EXPRS = [[s] for s in SEL] + [
     [".a", ".a | select(. == 3) | error(\"three\")"], ["select(.a == 1)", "tag"], [".a | select(. != null)", ".b"],
     [".a", ".a"], ["\"lit\"", ".a"],
     [".n[] as $i ireduce (0; . += $i)", ".a as $v | (0 | . += $v)"], [".a", ".n[] as $i ireduce (0; . += $i)"],
-] + [[s] for s in INPLACE]      # (a second time: weight)
-COLLECT = ("[.a]", "{\"x\": .a}", ".a + 1", ". * {\"z\": 1}") + tuple(INPLACE)   # not document-local in eval-all (collect; cross product of binary operators)
+] + [[s] for s in INPLACE] + [[s] for s in DATADEP] + [[s] for s in RUNTIME_PARSE]     # (a second time: weight)
+COLLECT = ("[.a]", "{\"x\": .a}", ".a + 1", ". * {\"z\": 1}") + tuple(INPLACE) + tuple(DATADEP) + tuple(RUNTIME_PARSE)   # not document-local in eval-all (collect; cross product of binary operators)
 IDENT = ["."]
 
 
@@ -471,6 +494,10 @@ def run(chk):
             {"files": [F([], [12, 13, 14])], "sels": [".sum = (.n[] as $i ireduce (0; . += $i))"], "mode": "e", "flags": dict(NF)},
             {"files": [F([], [12]), F([], [13]), F([S], [14])], "sels": [".n[] as $i ireduce (0; . += $i)"], "mode": "e", "flags": dict(NF)},
             {"files": [F([], [12, 13]), F([], [1])], "sels": [".k = (1 | . *= 2)"], "mode": "e", "flags": {"N": False, "json": True, "nul": False}},
+            {"files": [F([], [15, 16])], "sels": [".p as $p | .s | test($p)"], "mode": "e", "flags": dict(NF)},
+            {"files": [F([], [16]), F([], [15])], "sels": [".p as $p | .s | sub($p; \"X\")"], "mode": "e", "flags": dict(NF)},
+            {"files": [F([], [17, 17])], "sels": [".a style = .s | eval(.e)"], "mode": "e", "flags": dict(NF)},
+            {"files": [F([], [17]), F([], [17])], "sels": [".a tag |= \"!!\" + . | .c = \"\\(.b tag = .g | .b)\""], "mode": "e", "flags": dict(NF)},
         ]
         cases += fixed
         while len(cases) < ncases:
